@@ -2,7 +2,7 @@ SPECIFICATION Spec
 CONSTANTS
   Tier = "thorough"
   Fams = {"patch", "mode", "ready", "conn", "malformed"}
-  KnownCells = {"ConvertObjectInput", "ConvertFormatOnInteger"}
+  KnownCells = {"ConvertFormatOnInteger"}
 ACTION_CONSTRAINT Emit
 CHECK_DEADLOCK FALSE
 INVARIANTS DesignSound RefTotal
